@@ -64,6 +64,9 @@ Proof.
   - cbn [map concat seg_str app]. repeat (progress (rewrite <- ?app_assoc, ?app_nil_r; cbn [app])). reflexivity.
 Qed.
 
+Lemma day_nonzero v : 1 <= v -> match v with 0 => true | _ => false end = false.
+Proof. destruct v; [lia | reflexivity | reflexivity]. Qed.
+
 Ltac wdrw Hw :=
   rewrite ?(wd3_float _ Hw), ?(wd3_weekday _ Hw), ?(wd3_hms _ Hw), ?(wd3_ampm _ Hw), ?(wd3_jump _ Hw).
 
@@ -96,6 +99,8 @@ Proof.
   repeat (progress (unfold dec_gt, dec_ge, dec_lt, dec_le, frac_nonzero; cbn [fst snd existsb]; sym2;
                     wordrw Hm12; wdrw Hw; rewrite ?tok_is1_digit1 by lia;
                     rewrite ?convertyear_ge100 by lia));
+  rewrite ?(day_nonzero (d_d d)) by (clear - Hd31; lia);
+  repeat (progress sym2);
   try match goal with |- (if ?b then _ else _) = _ => destruct b end;
   reflexivity.
 Qed.
